@@ -39,7 +39,7 @@ from typing import Dict, List, Optional, Tuple
 from ..callgraph import CallGraph, Edge, FuncInfo
 from ..cfg import cfg_of, origins
 from ..flow import bind_args, is_method_bound
-from ..index import AnalysisError, FuncNode, last_attr, norm, short, walk_local
+from ..index import AnalysisError, FuncNode, calls_in, last_attr, norm, short, walk_local
 from ..iohelpers import all_calls, param_of, write_kind
 from ..report import construct_of
 from ..state import _param_names, chain_of, inventory, mutation_shapes
@@ -666,9 +666,50 @@ def run(chk) -> None:
     _r32d(chk)
     chk.rule("R32e", "a keyed memo (`if k in c: v = c[k] else: v = f(..); c[k] = v`) identifies every input of the memoised computation that varies with what the key is derived from")
     _r32e(chk)
+    chk.rule("R32f", "in the templaters, attributes are set dynamically (setattr) only on objects created for the call: the receiver of every setattr(..) in core/templaters is a fresh instance, not a class object or another value that outlives the call")
+    _r32f(chk)
     chk.exhaustive = True
     chk.assumptions.append("CPython ast gives the program's syntax faithfully; the reviewed tables (ARTEFACT_WRITERS, REVIEWED_STATE, REVIEWED_CACHES, REVIEWED_ARG_MUTATIONS in sa/rules/c32.py) were reviewed by hand")
     chk.assumptions.append("calls through values the call graph cannot type are resolved by method name over the whole tree (over-approximation); calls inside lambda bodies and calls made by libraries outside the tree are not followed")
+
+
+def _r32f(chk) -> None:
+    """`libraries = self.Libraries` (the class, not an instance) followed by setattr(libraries, name, module): the
+    imported modules of one file's library_path stay on the class and are served to every later file."""
+    repo = chk.repo
+    n = 0
+    for m in repo.iter_modules("src/sqlfluff/core/templaters/"):
+        if "setattr" not in m.text:
+            continue
+        for q, f in m.functions():
+            cs = [c for c in calls_in(f) if isinstance(c.func, ast.Name) and c.func.id == "setattr" and c.args]
+            if not cs:
+                continue
+            cfg = cfg_of(f)
+            for c in cs:
+                n += 1
+                recv = c.args[0]
+                exprs = [recv]
+                if isinstance(recv, ast.Name):
+                    os_ = origins(cfg, recv, cfg.stmt_of(c))
+                    exprs = [o.expr if o.kind == "expr" else None for o in os_]
+                def fresh(e) -> bool:
+                    if e is None:
+                        return False
+                    if isinstance(e, ast.Call):
+                        return True  # constructed (or returned) for this call
+                    if isinstance(e, ast.Attribute) and isinstance(e.value, ast.Name) and not e.attr[:1].isupper() and e.value.id not in ("self", "cls"):
+                        return True  # an attribute of a local object
+                    return False
+                bad = [short(e, 40) if e is not None else "a parameter / loop value" for e in exprs if not fresh(e)]
+                chk.require(
+                    not bad, "R32f", c,
+                    f"{q}: `{short(c, 50)}` sets attributes on {bad}, which is not an object created for this call (a class object keeps what one file's configuration put "
+                    "there for every later file of the process)",
+                    detail=f"{q}: setattr only on an object created for the call",
+                )
+    chk.count("R32f.setattr_sites", n)
+    chk.floor("R32f.setattr_sites", 1)
 
 
 def _r32d(chk) -> None:
@@ -817,6 +858,12 @@ PLACEHOLDER = "src/sqlfluff/core/templaters/placeholder.py"
 CONFIG_INFO = "src/sqlfluff/core/rules/config_info.py"
 
 VARIANTS: List[Variant] = [
+    Variant(
+        "libraries-namespace-is-the-class-object", "src/sqlfluff/core/templaters/jinja.py",
+        "        libraries = JinjaTemplater.Libraries()\n",
+        "        libraries = self.Libraries\n",
+        "R32f", "_extract_libraries_from_config", "seeded C32-6: modules of an earlier file's library_path are served to later files",
+    ),
     Variant(
         "templater-context-layered-onto-the-default-context", "src/sqlfluff/core/templaters/base.py",
         "        live_context = {}\n        live_context.update(self.default_context)\n",
